@@ -81,7 +81,7 @@ func newFuncAn(w *World, fn *ssa.Function, subst map[*ssa.Parameter]string) *Fun
 			continue
 		}
 		if iff, ok := b.Instrs[len(b.Instrs)-1].(*ssa.If); ok {
-			c := fa.canon(iff.Cond)
+			c := fa.canon(shortCircuitCond(iff))
 			c.If = iff
 			fa.byIf[iff] = len(fa.Conds)
 			fa.Conds = append(fa.Conds, c)
@@ -174,58 +174,307 @@ func fullMatch(pat, s string) bool {
 // q quotes a literal term for use in a pattern.
 func q(s string) string { return regexp.QuoteMeta(s) }
 
-// MatchGuard returns the pass edges of every If in the function matching p.
+// matchOne: does canonical condition c match pattern p (operands x, y already in this function's
+// vocabulary)? Returns the successor index on which the guard is passed (0 = the branch taken
+// when the tested SSA value is true).
+func matchOne(c Cond, x, y string, p GuardPat) (int, bool) {
+	switch p.Kind {
+	case "eq":
+		if c.Kind != "eq" {
+			return 0, false
+		}
+		if (fullMatch(x, c.L) && fullMatch(y, c.R)) || (fullMatch(x, c.R) && fullMatch(y, c.L)) {
+			succ := c.HoldsSucc
+			if !p.PassWhen {
+				succ = 1 - succ
+			}
+			return succ, true
+		}
+	case "bool":
+		if c.Kind != "bool" {
+			return 0, false
+		}
+		if fullMatch(x, c.L) {
+			succ := c.HoldsSucc
+			if !p.PassWhen {
+				succ = 1 - succ
+			}
+			return succ, true
+		}
+	case "gt":
+		if c.Kind != "gt" {
+			return 0, false
+		}
+		if fullMatch(x, c.L) && fullMatch(y, c.R) {
+			// the relation X > Y (or X >= Y) holds on HoldsSucc
+			succ := c.HoldsSucc
+			if !p.PassWhen {
+				succ = 1 - succ
+			}
+			return succ, true
+		} else if fullMatch(y, c.L) && fullMatch(x, c.R) {
+			// the branch tests Y > X; "X exceeds Y" (non-strictly) is its not-holds edge
+			succ := 1 - c.HoldsSucc
+			if !p.PassWhen {
+				succ = c.HoldsSucc
+			}
+			return succ, true
+		}
+	}
+	return 0, false
+}
+
+// rawPat is a guard pattern whose operands are already in the analysed function's vocabulary.
+type rawPat struct {
+	x, y string
+	p    GuardPat
+	main bool // a spelling of the guard itself (as opposed to an enabling condition under which it is not required)
+}
+
+// MatchGuard returns the pass edges of every If in the function matching p — directly, or through
+// a helper (see MatchGuardSet).
 func (fa *FuncAn) MatchGuard(p GuardPat) []Edge {
-	var out []Edge
-	x := substParams(fa.Fn, p.X)
-	y := substParams(fa.Fn, p.Y)
+	pass, _ := fa.matchGuardsRaw([]rawPat{{substParams(fa.Fn, p.X), substParams(fa.Fn, p.Y), p, true}}, 0)
+	return pass
+}
+
+// MatchGuardSet matches a guard given by alternative spellings (main) and the enabling conditions
+// under which it is legitimately not required (unless). It returns the pass edges of the guard
+// and the union with the unless edges. A check that was extracted into a helper is still the same
+// check: an If whose condition is a call of a module function returning one bool — or an
+// `err ==/!= nil` test of a module function returning an error — yields a pass edge when, in the
+// callee with the call's arguments substituted for its parameters, every return of true (of
+// false; of a nil error) requires passing the guard or one of its unless edges, and the guard
+// itself is present there.
+func (fa *FuncAn) MatchGuardSet(main, unless []GuardPat) (pass, all []Edge) {
+	var pats []rawPat
+	for _, p := range main {
+		pats = append(pats, rawPat{substParams(fa.Fn, p.X), substParams(fa.Fn, p.Y), p, true})
+	}
+	for _, p := range unless {
+		pats = append(pats, rawPat{substParams(fa.Fn, p.X), substParams(fa.Fn, p.Y), p, false})
+	}
+	return fa.matchGuardsRaw(pats, 0)
+}
+
+func (fa *FuncAn) matchGuardsRaw(pats []rawPat, depth int) (pass, all []Edge) {
 	for _, c := range fa.Conds {
-		switch p.Kind {
-		case "eq":
-			if c.Kind != "eq" {
-				continue
-			}
-			if (fullMatch(x, c.L) && fullMatch(y, c.R)) || (fullMatch(x, c.R) && fullMatch(y, c.L)) {
-				succ := c.HoldsSucc
-				if !p.PassWhen {
-					succ = 1 - succ
+		for _, rp := range pats {
+			if succ, ok := matchOne(c, rp.x, rp.y, rp.p); ok {
+				e := Edge{c.If.Block(), succ}
+				all = append(all, e)
+				if rp.main {
+					pass = append(pass, e)
 				}
-				out = append(out, Edge{c.If.Block(), succ})
-			}
-		case "bool":
-			if c.Kind != "bool" {
-				continue
-			}
-			if fullMatch(x, c.L) {
-				succ := c.HoldsSucc
-				if !p.PassWhen {
-					succ = 1 - succ
-				}
-				out = append(out, Edge{c.If.Block(), succ})
-			}
-		case "gt":
-			if c.Kind != "gt" {
-				continue
-			}
-			if fullMatch(x, c.L) && fullMatch(y, c.R) {
-				// the relation X > Y (or X >= Y) holds on HoldsSucc
-				succ := c.HoldsSucc
-				if !p.PassWhen {
-					succ = 1 - succ
-				}
-				out = append(out, Edge{c.If.Block(), succ})
-			} else if fullMatch(y, c.L) && fullMatch(x, c.R) {
-				// the branch tests Y > X; "X exceeds Y" (non-strictly) is its
-				// not-holds edge
-				succ := 1 - c.HoldsSucc
-				if !p.PassWhen {
-					succ = c.HoldsSucc
-				}
-				out = append(out, Edge{c.If.Block(), succ})
 			}
 		}
 	}
-	return out
+	if depth >= 2 {
+		return
+	}
+	for _, c := range fa.Conds {
+		v := c.If.Cond
+		for {
+			u, ok := v.(*ssa.UnOp)
+			if !ok || u.Op != token.NOT {
+				break
+			}
+			v = u.X
+		}
+		switch c.Kind {
+		case "bool":
+			call, ok := v.(*ssa.Call)
+			if !ok {
+				continue
+			}
+			g := helperCallee(fa, call)
+			if g == nil {
+				continue
+			}
+			res := g.Signature.Results()
+			if res.Len() != 1 || !types.Identical(res.At(0).Type().Underlying(), types.Typ[types.Bool]) {
+				continue
+			}
+			ga := NewFuncAnCtx(fa.W, g, fa.CallArgs(call))
+			whenTrue, whenFalse := ga.helperImplies(pats, depth+1)
+			switch {
+			case whenTrue:
+				e := Edge{c.If.Block(), c.HoldsSucc}
+				pass, all = append(pass, e), append(all, e)
+			case whenFalse:
+				e := Edge{c.If.Block(), 1 - c.HoldsSucc}
+				pass, all = append(pass, e), append(all, e)
+			}
+		case "eq":
+			// a helper that reports by error: `if err := check(…); err != nil { reject }`
+			if !(c.L == "nil" || c.R == "nil") {
+				continue
+			}
+			bo, ok := v.(*ssa.BinOp)
+			if !ok {
+				continue
+			}
+			var ev ssa.Value
+			if cn, isC := bo.Y.(*ssa.Const); isC && cn.Value == nil {
+				ev = bo.X
+			} else if cn, isC := bo.X.(*ssa.Const); isC && cn.Value == nil {
+				ev = bo.Y
+			} else {
+				continue
+			}
+			var call *ssa.Call
+			switch e := ev.(type) {
+			case *ssa.Call:
+				call = e
+			case *ssa.Extract:
+				if cc, isCall := e.Tuple.(*ssa.Call); isCall && e.Index == cc.Call.Signature().Results().Len()-1 {
+					call = cc
+				}
+			}
+			if call == nil {
+				continue
+			}
+			g := helperCallee(fa, call)
+			if g == nil {
+				continue
+			}
+			res := g.Signature.Results()
+			if res.Len() < 1 || res.At(res.Len()-1).Type().String() != "error" {
+				continue
+			}
+			ga := NewFuncAnCtx(fa.W, g, fa.CallArgs(call))
+			gpass, gall := ga.matchGuardsRaw(pats, depth+1)
+			if len(gpass) == 0 {
+				continue
+			}
+			var nilExits []Exit
+			for _, ex := range ga.Exits() {
+				rs := RetResults(ex.Ret)
+				if len(rs) == 0 {
+					continue
+				}
+				if !ga.knownNonNilErr(rs[len(rs)-1], ex.In) {
+					nilExits = append(nilExits, ex)
+				}
+			}
+			if len(nilExits) > 0 && ga.PathAvoiding(gall, nilExits) == nil {
+				e := Edge{c.If.Block(), c.HoldsSucc}
+				pass, all = append(pass, e), append(all, e)
+			}
+		}
+	}
+	return
+}
+
+func helperCallee(fa *FuncAn, call *ssa.Call) *ssa.Function {
+	g := call.Call.StaticCallee()
+	if g == nil || len(g.Blocks) == 0 || g.Pkg == nil || !inModule(g.Pkg.Pkg.Path()) || g == fa.Fn {
+		return nil
+	}
+	return g
+}
+
+// helperImplies: in this (boolean, single-result) function, does returning true — respectively
+// false — imply that the guard was passed (or was not required)?
+func (fa *FuncAn) helperImplies(pats []rawPat, depth int) (whenTrue, whenFalse bool) {
+	gpass, gall := fa.matchGuardsRaw(pats, depth)
+	var mayTrue, mayFalse []Exit // exits not settled by a matching returned expression
+	nTrue, nFalse, matched := 0, 0, 0
+	for _, ex := range fa.Exits() {
+		rs := RetResults(ex.Ret)
+		if len(rs) != 1 {
+			return false, false
+		}
+		if v, known := fa.knownBool(rs[0], ex.In); known {
+			if v {
+				nTrue++
+				mayTrue = append(mayTrue, ex)
+			} else {
+				nFalse++
+				mayFalse = append(mayFalse, ex)
+			}
+			continue
+		}
+		// a returned expression: true ⇔ its condition holds (through the phi of a short-circuit:
+		// the operand of the edge this exit arrives over)
+		nTrue++
+		nFalse++
+		rv := rs[0]
+		if phi, isPhi := rv.(*ssa.Phi); isPhi && ex.In != nil && phi.Block() == ex.In.To() {
+			for i, p := range phi.Block().Preds {
+				if p == ex.In.From && i < len(phi.Edges) {
+					rv = phi.Edges[i]
+				}
+			}
+		}
+		cc := fa.canon(rv)
+		settled := false
+		for _, rp := range pats {
+			if !rp.main {
+				continue
+			}
+			if succ, ok := matchOne(cc, rp.x, rp.y, rp.p); ok {
+				matched++
+				if succ == 0 {
+					mayFalse = append(mayFalse, ex) // expression true ⇒ guard passed
+				} else {
+					mayTrue = append(mayTrue, ex)
+				}
+				settled = true
+				break
+			}
+		}
+		if !settled {
+			mayTrue = append(mayTrue, ex)
+			mayFalse = append(mayFalse, ex)
+		}
+	}
+	if len(gpass) == 0 && matched == 0 {
+		return false, false
+	}
+	whenTrue = nTrue > 0 && (len(mayTrue) == 0 || fa.PathAvoiding(gall, mayTrue) == nil)
+	whenFalse = nFalse > 0 && (len(mayFalse) == 0 || fa.PathAvoiding(gall, mayFalse) == nil)
+	// a guard tested once per element of a loop (zero elements pass vacuously): the helper
+	// implements it when no true (false) return is reachable from a rejecting edge
+	inLoop := len(gpass) > 0
+	for _, e := range gpass {
+		if loopHeaderOf(e.From) == nil {
+			inLoop = false
+		}
+	}
+	if inLoop && !whenTrue && !whenFalse {
+		rejectFree := func(exits []Exit) bool {
+			te := map[Edge]bool{}
+			tb := map[*ssa.BasicBlock]bool{}
+			for _, x := range exits {
+				if x.In == nil {
+					tb[x.Ret.Block()] = true
+				} else {
+					te[*x.In] = true
+				}
+			}
+			for _, e := range gpass {
+				rej := Edge{e.From, 1 - e.Succ}
+				if te[rej] {
+					return false
+				}
+				if p := pathTo(rej.To(), map[Edge]bool{e: true}, te, tb); p != nil {
+					return false
+				}
+			}
+			return true
+		}
+		if nTrue > 0 && len(mayTrue) > 0 && rejectFree(mayTrue) {
+			whenTrue = true
+		} else if nFalse > 0 && len(mayFalse) > 0 && rejectFree(mayFalse) {
+			whenFalse = true
+		}
+	}
+	if whenTrue && whenFalse {
+		// every return needs the guard: it is not what the result reports
+		return false, false
+	}
+	return whenTrue, whenFalse
 }
 
 // --- reachability -------------------------------------------------------------
@@ -640,6 +889,47 @@ func (fa *FuncAn) Calls(calleePat string) []ssa.CallInstruction {
 	return out
 }
 
+// deepCall is a call site found in the function or in a new helper it calls (with the helper's
+// parameters rendered as the caller's arguments).
+type deepCall struct {
+	ci   ssa.CallInstruction
+	fa   *FuncAn
+	site ssa.CallInstruction // the call in the anchor function through which ci is reached (ci itself when direct)
+}
+
+// CallsDeep: the call sites matching calleePat in the function and, transitively (depth 3), in the
+// new helpers it calls — see newHelper.
+func (fa *FuncAn) CallsDeep(calleePat string) []deepCall {
+	var out []deepCall
+	var walk func(a *FuncAn, depth int, site ssa.CallInstruction)
+	walk = func(a *FuncAn, depth int, site ssa.CallInstruction) {
+		for _, b := range a.Fn.Blocks {
+			for _, in := range b.Instrs {
+				ci, ok := in.(ssa.CallInstruction)
+				if !ok {
+					continue
+				}
+				top := site
+				if top == nil {
+					top = ci
+				}
+				if fullMatch(calleePat, a.CalleeName(ci)) {
+					out = append(out, deepCall{ci, a, top})
+				}
+				if depth < 3 {
+					if g := ci.Common().StaticCallee(); g != nil && newHelper(g) && g != a.Fn {
+						sub := NewFuncAnCtx(a.W, g, a.CallArgs(ci))
+						sub.R.inlineDepth = a.R.inlineDepth + 1
+						walk(sub, depth+1, top)
+					}
+				}
+			}
+		}
+	}
+	walk(fa, 0, nil)
+	return out
+}
+
 // CalleeName renders the callee of a call site (without arguments).
 func (fa *FuncAn) CalleeName(ci ssa.CallInstruction) string {
 	c := ci.Common()
@@ -740,4 +1030,46 @@ func ConstNilErrSuccess(errIdx int) ExitClass {
 		k, ok := res[errIdx].(*ssa.Const)
 		return ok && k.Value == nil
 	}
+}
+
+// shortCircuitCond: `switch { case a && b: }` (and `x := a && b; if x`) materialises the
+// short-circuit as a phi of booleans in the block of the If: φ(false [a failed] | b). Arriving over
+// a constant edge the branch is decided (pathTo prunes those by phiConstSucc); arriving over the
+// single non-constant edge the If tests that value. The condition of such an If is therefore that
+// value — the same condition the if-statement form branches on directly.
+func shortCircuitCond(iff *ssa.If) ssa.Value {
+	v := iff.Cond
+	neg := 0
+	for {
+		u, ok := v.(*ssa.UnOp)
+		if !ok || u.Op != token.NOT {
+			break
+		}
+		v = u.X
+		neg++
+	}
+	phi, ok := v.(*ssa.Phi)
+	if !ok || phi.Block() != iff.Block() {
+		return iff.Cond
+	}
+	var nonConst ssa.Value
+	n := 0
+	for _, e := range phi.Edges {
+		if _, isC := e.(*ssa.Const); isC {
+			continue
+		}
+		nonConst = e
+		n++
+	}
+	if n != 1 || neg != 0 {
+		return iff.Cond
+	}
+	return nonConst
+}
+
+// TrueImplies: this single-result boolean function returns true only when guard p was passed — by a
+// branch, or because the returned expression is the guard's condition.
+func (fa *FuncAn) TrueImplies(p GuardPat) bool {
+	whenTrue, _ := fa.helperImplies([]rawPat{{substParams(fa.Fn, p.X), substParams(fa.Fn, p.Y), p, true}}, 0)
+	return whenTrue
 }
